@@ -11,6 +11,7 @@ other protocols' parsed listings compared with the Gopher one.
 from __future__ import annotations
 
 import itertools
+import os
 
 from .. import core, parsers, rig
 from .c06 import VIEWS, canon_entries, fetch_listing
@@ -21,8 +22,10 @@ SHAPES = [
     b"Just some text", b"", b"text  with   inner spaces", b"1src\t", b"0Rel file\trel.txt", b"1Abs\t/other/dir", b"hWeb\tURL:http://example.com/a?b=1&c",
     b"1Remote\t/x\tremote.example", b"0Remote port\t/y\tremote.example\t7070", b"1Home\t\tremote.example\t70", b"0Deep\tsub/deep.txt",
     b"0A & <b> \"q\" 'x'\tf&g.txt", b"iExplicit info\tfake\t(NULL)\t0", b"7Search\t/target.txt", b"0Trailing fields\t/t.txt\t\t", b"9No selector at all\t\t\t",
+    # characters that are line boundaries for str.splitlines() but not for a text file: one line stays one entry
+    b"0Form\x0cfeed and \x0bvt\tf&g.txt", b"info with NEL \xc2\x85 and LS \xe2\x80\xa8 inside",
 ]
-PLACEMENTS = ["root", "d1", "d2", "file"]
+PLACEMENTS = ["root", "d1", "d2", "file", "rootfile"]
 
 
 def reference(lines, dirsel: bytes):
@@ -57,7 +60,7 @@ def expected_menu(ref):
     return out
 
 
-def build(lines, term, placement):
+def body_of(lines, term):
     body = b""
     for i, ln in enumerate(lines):
         body += ln
@@ -67,54 +70,56 @@ def build(lines, term, placement):
             body += b"\r\n"
         elif term == "nolast":
             body += b"\n" if i < len(lines) - 1 else b""
-    common = {b"rel.txt": b"r\n", b"sub": {b"deep.txt": b"d\n"}, b"f&g.txt": b"fg\n"}
-    if placement == "root":
-        spec = dict(common)
-        spec[b"gophermap"] = body
-        return spec, b"", b"/"
-    if placement == "d1":
-        d = dict(common)
-        d[b"gophermap"] = body
-        return {b"d1": d}, b"/d1", b"/d1"
-    if placement == "d2":
-        d = dict(common)
-        d[b"gophermap"] = body
-        return {b"d1": {b"d 2": d}}, b"/d1/d 2", b"/d1/d 2"
-    spec = {b"maps": dict(common)}
-    spec[b"maps"][b"x.gophermap"] = body
-    # a *.gophermap file resolves relative selectors against ITS OWN selector (documented: "the directory that the gophermap file is in")
-    return spec, b"/maps", b"/maps/x.gophermap"
+    return body
+
+
+COMMON = {b"rel.txt": b"r\n", b"sub": {b"deep.txt": b"d\n"}, b"f&g.txt": b"fg\n"}
+# placement -> (tree around the gophermap, path of the gophermap file, directory selector, request selector)
+LAYOUT = {
+    "root": (dict(COMMON), b"gophermap", b"", b"/"),
+    "d1": ({b"d1": dict(COMMON)}, b"d1/gophermap", b"/d1", b"/d1"),
+    "d2": ({b"d1": {b"d 2": dict(COMMON)}}, b"d1/d 2/gophermap", b"/d1/d 2", b"/d1/d 2"),
+    "file": ({b"maps": dict(COMMON)}, b"maps/x.gophermap", b"/maps", b"/maps/x.gophermap"),
+    "rootfile": (dict(COMMON), b"x.gophermap", b"", b"/x.gophermap"),
+}
+_worlds = {}
+
+
+def world_for(placement):
+    """ONE long-lived world per placement: the gophermap is rewritten IN PLACE between cases, with every
+    timestamp pinned, so anything the server remembers about an earlier gophermap shows."""
+    w = _worlds.get(placement)
+    if w is None:
+        w = rig.World(LAYOUT[placement][0], handlers="default", cachetime=0, tag="c09")
+        _worlds[placement] = w
+    return w
 
 
 def check_one(lines, term, placement, views):
-    spec, dirsel, reqsel = build(lines, term, placement)
-    w = rig.World(spec, handlers="default", cachetime=0, tag="c09")
+    tree, gpath, dirsel, reqsel = LAYOUT[placement]
+    w = world_for(placement)
+    rig.reset_lazies()  # several worlds live in this process; the root path is one of the lazily cached values
     bad = []
-    try:
-        ref = expected_menu(reference(lines, dirsel if placement != "file" else b"/maps/x.gophermap"))
-        ref_doc = expected_menu(reference(lines, dirsel))
-        base = None
-        for view in views:
-            r, entries, err = fetch_listing(w, view, reqsel)
-            if entries is None:
-                bad.append((view, "listing", err))
-                continue
-            got = canon_entries(view, entries, drop_info=False)
-            if view == "gopher":
-                base = got
-                want = ref_doc if placement != "file" else None
-                if placement == "file":
-                    # accept either documented reading for the file form (relative to its directory)
-                    want = ref_doc
-                if got != want:
-                    i = next((j for j in range(min(len(got), len(want))) if got[j] != want[j]), min(len(got), len(want)))
-                    bad.append((view, "reference", "gophermap %r (%s, %s): entry #%d is %r, the documented reading gives %r (listing has %d entries, expected %d)" % (
-                        lines, term, placement, i, got[i:i + 1], want[i:i + 1], len(got), len(want))))
-            elif base is not None and got != base:
-                i = next((j for j in range(min(len(got), len(base))) if got[j] != base[j]), min(len(got), len(base)))
-                bad.append((view, "cross-protocol", "gophermap %r (%s, %s): %s entry #%d is %r, gopher shows %r" % (lines, term, placement, view, i, got[i:i + 1], base[i:i + 1])))
-    finally:
-        w.destroy()
+    full = os.path.join(os.fsencode(w.root), gpath)
+    rig.write_file(full, body_of(lines, term), mtime=1000000000)
+    os.utime(os.path.dirname(full), (1000000000, 1000000000))
+    want = expected_menu(reference(lines, dirsel))
+    base = None
+    for view in views:
+        r, entries, err = fetch_listing(w, view, reqsel)
+        if entries is None:
+            bad.append((view, "listing", err))
+            continue
+        got = canon_entries(view, entries, drop_info=False)
+        if view == "gopher":
+            base = got
+            if got != want:
+                i = next((j for j in range(min(len(got), len(want))) if got[j] != want[j]), min(len(got), len(want)))
+                bad.append((view, "reference", "gophermap %r (%s, %s): entry #%d is %r, the documented reading gives %r (listing has %d entries, expected %d)" % (
+                    lines, term, placement, i, got[i:i + 1], want[i:i + 1], len(got), len(want))))
+        elif base is not None and got != base:
+            i = next((j for j in range(min(len(got), len(base))) if got[j] != base[j]), min(len(got), len(base)))
+            bad.append((view, "cross-protocol", "gophermap %r (%s, %s): %s entry #%d is %r, gopher shows %r" % (lines, term, placement, view, i, got[i:i + 1], base[i:i + 1])))
     return bad
 
 
@@ -136,11 +141,21 @@ def _shard(shard, seed, tier):
                 continue
             seen.add(k)
             part.violation(k, det, {"idxs": list(idxs), "term": term, "placement": placement, "allviews": allviews})
+    for w in _worlds.values():
+        w.destroy()
+    _worlds.clear()
     return part
 
 
 def replay(case):
-    bad = check_one([SHAPES[i] for i in case["idxs"]], case["term"], case["placement"], VIEWS if case["allviews"] else ["gopher"])
+    try:
+        # a different gophermap first, then the case: what a long-lived server would have seen
+        check_one([SHAPES[0]], "lf", case["placement"], ["gopher"])
+        bad = check_one([SHAPES[i] for i in case["idxs"]], case["term"], case["placement"], VIEWS if case["allviews"] else ["gopher"])
+    finally:
+        for w in _worlds.values():
+            w.destroy()
+        _worlds.clear()
     return (bad[0][1], bad[0][2]) if bad else None
 
 
@@ -156,7 +171,7 @@ def run(ck):
                         continue
                     if term == "nolast" and SHAPES[idxs[-1]] == b"":
                         continue  # an empty unterminated last line is no line at all
-                    if k == 3 and ck.tier == "quick" and placement in ("d2",):
+                    if k == 3 and ck.tier == "quick" and placement in ("d2", "rootfile"):
                         continue
                     allviews = k <= 2 and (term == "lf" or k == 1)
                     items.append((idxs, term, placement, allviews))
